@@ -56,6 +56,11 @@ def run(ctx):
     regions.ONE_SIDED = False
   from . import c02
   ctx.borrow(c02.rule_codec, "R-C07-NEIGHBOUR")      # ExtendedBatchDL: a log found for point i is reported for point i
+  # the difference search names its second key by position in a list that must stay parallel to the batch (shared with C02 / C10), and CheckGCD pairs
+  # gcds[i] with artifacts[i], so the values searched must be the moduli of the whole batch in batch order (shared with C03)
+  ctx.borrow(c02.rule_release, "R-C07-NEIGHBOUR", lambda r: r.where.endswith("BatchDLOfDifferences"))
+  from . import c03 as _c03
+  ctx.borrow(_c03.rule_verdict, "R-C07-NEIGHBOUR")
   # a healthy key checked alone (or with copies of itself) is judged through the product tree of a single value: T must be the sum of cofactors (shared with C03)
   from . import c03
   ctx.borrow(c03.rule_tree, "R-C07-TREE")
@@ -67,7 +72,7 @@ def run(ctx):
   ctx.borrow(c10.rule_dup, "R-C07-REPEAT")
   ctx.borrow(c17.rule_stateless, "R-C07-REPEAT")
   ctx.expect("R-C07-REPEAT", 11, "duplicate-key rows of the difference search + state scan")
-  ctx.expect("R-C07-NEIGHBOUR", 2 + 24 + 2, "BatchGCD element-wise + per-curve partitions + one fresh entry per artifact in 24 Check bodies")
+  ctx.expect("R-C07-NEIGHBOUR", 2 + 24 + 2 + 11, "BatchGCD element-wise + per-curve partitions + one fresh entry per artifact in 24 Check bodies")
   ctx.expect("R-C07-BOUNDS", 7, "seven thresholds")
   ctx.expect("R-C07-EXACT", 29, "29 registered checks")
 
